@@ -242,7 +242,7 @@ func c17Hostile(c *hx.Ctx, r *hx.RNG) {
 		if nw > 0 {
 			switch shape {
 			case 0:
-				words[r.Intn(nw)] = wb + r.U64()%(1<<63) // a word >= 10^19
+				words[r.Intn(nw)] = []uint64{wb, wb, wb + 1, 1<<64 - 1, wb + r.U64()%(1<<63)}[r.Intn(5)] // a word >= 10^19 (exactly the base included: its low 19 digits are zeros)
 			case 1:
 				words[0] = 0 // leading (most significant) zero word
 			case 2:
